@@ -24,6 +24,9 @@ def conditions(tier):
     cs = _d.doc_conditions(tier, eols=("\n",) if q else ("\n", "\r\n"))
     if q:
         cs += _d.doc_conditions(tier, shapes=("steps", "description"), eols=("\r\n",))
+    # a result already returned must stay what it was when the same Parser / builder go on to other documents
+    cs += _d.doc_conditions(tier, shapes=("titles", "steps") if q else ("titles", "steps", "docstring", "description", "outline"), fn="reuse_matches_fresh",
+                            extra={"history": ["comments", "rejected", "accepted"]})
     for kind, head in (("FeatureLine", "Feature:"), ("ScenarioLine", "Scenario Outline:"), ("StepLine", "Given "), ("StepLine", "* "), ("ExamplesLine", "Examples:")):
         cs.append(_l.line1(kind, head, maxlen=2 if q else 3, maxind=1, T=600))
     # element structure at line-kind level: the REAL parser + REAL AstBuilder from every grammar configuration; the AST must contain
